@@ -114,3 +114,60 @@ Definition acc_of (tbl : list (file * list (reader * outcome))) (r : reader) (f 
   | Some row => match assoc r row with Some o => o | None => No end
   | None => No
   end.
+
+(* ---- registration (register.py / _getreader.registerreader, core/_files.py PseudoNetCDFType.__init__) -------
+   if name not in [k for k, v in _readers]: _readers.insert(0, (name, reader)); return True  else: return False *)
+Definition known (n : name) (reg : registry) : bool := existsb (fun kr => Nat.eqb (fst kr) n) reg.
+
+Fixpoint insert_at {X} (pos : nat) (x : X) (l : list X) : list X :=
+  match pos, l with
+  | O, _ => x :: l
+  | S p, [] => [x]                 (* list.insert beyond the end appends *)
+  | S p, y :: t => y :: insert_at p x t
+  end.
+
+Definition impl_register (reg : registry) (n : name) (r : reader) : registry :=
+  if known n reg then reg else (n, r) :: reg.
+
+(* class creation: shortl = registerreader(name, cls); longl = registerreader(longname, cls) *)
+Definition impl_class_created (reg : registry) (short long : name) (cls : reader) : registry :=
+  impl_register (impl_register reg short cls) long cls.
+
+Fixpoint nodup_names (reg : registry) : bool :=
+  match reg with [] => true | (k, _) :: t => negb (known k t) && nodup_names t end.
+
+(* first pair with that name (what a reader of the list, not of the dict, would take) *)
+Fixpoint lookup_first (n : name) (reg : registry) : option reader :=
+  match reg with [] => None | (k, r) :: t => if Nat.eqb k n then Some r else lookup_first n t end.
+
+(* ---- tie T: the same step with every decision that the source text takes left as a parameter; the translator
+   (harness/props/c15.py translate()) reads the parameters off _getreader.py into Gen/RegistrySrc.v on every run *)
+Record getreader_src := GSrc {
+  g_private_copy : bool;      (* `_myreaders = list(_readers)` -> true ; `_myreaders = _readers` -> false *)
+  g_insert_pos : nat;         (* `_myreaders.insert(<pos>, (ext, rdict[ext]))` *)
+  g_dict_last_wins : bool;    (* getreaderdict: `return dict(_readers)` -> true *)
+  g_named_uses_dict : bool;   (* pncopen: `reader = getreaderdict()[format]` -> true *)
+  g_register_pos : nat;       (* registerreader: `_readers.insert(<pos>, (name, reader))` *)
+  g_register_if_new : bool    (* registerreader: guarded by `if name not in [k for k, v in _readers]` *)
+}.
+
+Definition generic_lookup (g : getreader_src) (n : name) (reg : registry) : option reader :=
+  if g_dict_last_wins g then lookup_last n reg else lookup_first n reg.
+
+Definition generic_step (g : getreader_src) (acc : reader -> file -> outcome) (reg : registry) (s : step)
+  : registry * result :=
+  match s with
+  | Auto e f =>
+      let mine := match generic_lookup g e reg with
+                  | Some r => insert_at (g_insert_pos g) (e, r) reg
+                  | None => reg
+                  end in
+      (if g_private_copy g then reg else mine, first_accepting (fun r => acc r f) mine)
+  | Named n f =>
+      (reg, if g_named_uses_dict g
+            then match generic_lookup g n reg with Some r => Selected r | None => UnknownFormat end
+            else first_accepting (fun r => acc r f) (filter (fun kr => Nat.eqb (fst kr) n) reg))
+  end.
+
+Definition generic_register (g : getreader_src) (reg : registry) (n : name) (r : reader) : registry :=
+  if g_register_if_new g && known n reg then reg else insert_at (g_register_pos g) (n, r) reg.
